@@ -290,6 +290,11 @@ int main(int argc, char **argv) {
     n += snprintf(buf + n, sizeof buf - n, "}\n");
     write(1, buf, n);
     _exit(0);
+  } else if (!strcmp(c, "probe")) {
+    // probe N TAG: N times access("/c17run-TAG/marker"); exit 0
+    int n = atoi(argv[2]); static char pth[256]; snprintf(pth, sizeof pth, "/%s/marker", argv[3]);
+    for (int i = 0; i < n; i++) syscall(SYS_access, pth, 0);
+    _exit(0);
   } else if (!strcmp(c, "threads")) {
     // threads N MS: N extra threads, all sleeping MS milliseconds
     int nt = atoi(argv[2]); long ms = atol(argv[3]); pthread_t th;
@@ -438,6 +443,14 @@ int main(int argc, char **argv) {
     else if (!strcmp(k, "unknown_syscall")) { r = syscall(9999); }
     else if (!strcmp(k, "negative_syscall")) { r = syscall(-5L); }
     else if (!strcmp(k, "x32_syscall")) { r = syscall(0x40000000L | 2, reg, 0); }
+    else if (!strcmp(k, "sysno_bit63") || !strcmp(k, "sysno_upper_ones") || !strcmp(k, "sysno_upper_garbage")) {
+      // the kernel and the filter look at the low 32 bits of rax (2 = open), the tracer reads all 64
+      unsigned long nr = !strcmp(k, "sysno_bit63") ? 0x8000000000000002UL : !strcmp(k, "sysno_upper_ones") ? 0xffffffff00000002UL : 0x0000000100000002UL;
+      strcpy(reg, "/dev/null");
+      register long rax __asm__("rax") = (long)nr; register long rdi __asm__("rdi") = (long)reg; register long rsi __asm__("rsi") = 0;
+      __asm__ volatile("syscall" : "+r"(rax) : "r"(rdi), "r"(rsi) : "rcx", "r11", "memory");
+      r = rax;
+    }
     else if (!strcmp(k, "openat2_bad_how")) { strcpy(reg, "/dev/null"); r = syscall(437, -100, reg, 8L, 24L); }
     else if (!strcmp(k, "openat2_how_cross")) { strcpy(reg, "/dev/null"); r = syscall(437, -100, reg, reg + 2 * 4096 - 4, 24L); }
     else if (!strcmp(k, "execve_bad")) { r = syscall(SYS_execve, 8L, 8L, 8L); }
